@@ -258,7 +258,7 @@ func (g *gen) genTree(label string) *treeBuild {
 	return tb
 }
 
-var faultKinds = []string{"trunc_rehash", "trunc_boundary_rehash", "corrupt_rehash", "insert_rehash", "trunc_stale", "trunc_boundary_stale", "corrupt_stale", "replace_stale", "extend_stale", "not_a_tree", "read_error", "unknown_field"}
+var faultKinds = []string{"trunc_rehash", "trunc_boundary_rehash", "corrupt_rehash", "insert_rehash", "trunc_stale", "trunc_boundary_stale", "corrupt_stale", "replace_stale", "extend_stale", "not_a_tree", "read_error", "unknown_field", "unknown_field_trunc"}
 
 // lastTopLevelField locates the last field of a marshalled message that
 // uses the length-delimited wire type.
@@ -391,7 +391,7 @@ func appendVarint(b []byte, v uint64) []byte {
 }
 
 // applyFault damages one Tree. Variants "*_rehash", "not_a_tree" and
-// "unknown_field" store the damaged bytes under their own (valid) digest;
+// "unknown_field" / "unknown_field_trunc" store the damaged bytes under their own (valid) digest;
 // "*_stale" leave the damaged bytes under the digest of the original
 // ("trunc_boundary_stale": cut between two top-level fields, so that what
 // is left is a complete, shorter Tree; "replace_stale": a different Tree of
@@ -489,6 +489,24 @@ func (g *gen) applyFault(tb *treeBuild, kind string, streamed map[digest.Digest]
 		} else {
 			mut = append(append([]byte(nil), orig...), f...)
 		}
+	case "unknown_field_trunc":
+		// A complete Tree followed by a top-level field the decorator does
+		// not read, cut inside that field: only the announced length (or
+		// the incomplete scalar) gives the truncation away.
+		var f []byte
+		switch g.n(0, 3, "fault/wire") {
+		case 0: // field 3, bytes: announced length larger than what follows
+			l := g.n(1, 40, "fault/len")
+			f = appendVarint([]byte{3<<3 | 2}, uint64(l))
+			f = append(f, make([]byte, g.n(0, l-1, "fault/have"))...)
+		case 1: // field 4, fixed32 with fewer than 4 bytes
+			f = append([]byte{4<<3 | 5}, make([]byte, g.n(0, 3, "fault/have"))...)
+		case 2: // field 5, fixed64 with fewer than 8 bytes
+			f = append([]byte{5<<3 | 1}, make([]byte, g.n(0, 7, "fault/have"))...)
+		case 3: // field 3, varint without its final byte
+			f = []byte{3<<3 | 0, 0x80, 0x80}[:g.n(1, 3, "fault/have")]
+		}
+		mut = append(append([]byte(nil), orig...), f...)
 	case "read_error":
 		spec := serveSpec{
 			chunks:    []int{g.n(1, 40, "fault/chunk")},
